@@ -71,16 +71,18 @@ def _better_call(test: ast.AST, ind: str, attr: str) -> Optional[str]:
 RANKS = (3, 5, 7)
 
 
-def _tracker_model(ctx: Ctx, c, attr: str, initial, batch_ranks: tuple, rank0: dict):
+def _tracker_model(ctx: Ctx, c, attr: str, initial, batch_ranks: tuple, rank0: dict, state: Optional[dict] = None, names: Optional[list] = None,
+                   method: str = "evaluate"):
     """Interpret <tracker>.evaluate(individuals) on a batch of symbolic individuals with the given aggregate ranks.
+    state: the tracker's attributes ('self.x' -> value) as an earlier interpreted call left them (overrides `initial`).
     Returns the list of (trace, env) results, or raises."""
     from ..modelinterp import Interp, Sym, UNKNOWN, Budget
     prog = ctx.prog
-    ev = prog.lookup_method(c, "evaluate")
+    ev = prog.lookup_method(c, method)
     ranks = dict(rank0)
     inds = []
     for i, r in enumerate(batch_ranks):
-        t = f"ind{i + 1}"
+        t = names[i] if names else f"ind{i + 1}"
         ranks[t] = r
         inds.append(Sym(t))
 
@@ -109,6 +111,10 @@ def _tracker_model(ctx: Ctx, c, attr: str, initial, batch_ranks: tuple, rank0: d
             recv = it.ev(call.func.value, env, 9)
             if isinstance(recv, Sym):
                 return Sym("fit:" + recv.tag)
+        if nm == "key_function" and isinstance(call.func, ast.Attribute) and len(args) == 1 and fit_rank(args[0]) is not None:
+            return fit_rank(args[0])          # Problem.key_function(fitness): the maximising aggregate
+        if nm == "time" or nm == "perf_counter" or nm == "monotonic":
+            return Sym("clock")
         return None
 
     it = Interp(prog, c, atom, call_model, record_calls=("register",), max_depth=5)
@@ -117,7 +123,18 @@ def _tracker_model(ctx: Ctx, c, attr: str, initial, batch_ranks: tuple, rank0: d
         it.heap[("fit:" + t_, "maximizing_aggregate")] = r_
     env = {"self": Sym("self"), f"self.{attr}": initial, "self.recorders": [Sym("rec1")], "individuals": list(inds),
            "self.problem": Sym("problem"), "self.evaluator": Sym("evaluator")}
-    return it.run(ev, env), inds, ranks
+    if state is not None:
+        env.update(state)
+    if method == "__init__":
+        env = {"self": Sym("self")}
+        for q in ev.params[1:]:
+            env[q] = {"problem": Sym("problem"), "evaluator": Sym("evaluator"), "recorders": [Sym("rec1")]}.get(q, UNKNOWN)
+    else:
+        for q in ev.params[1:]:
+            env[q] = list(inds)
+    res_ = it.run(ev, env)
+    _tracker_model.last_envs = list(it.envs)
+    return res_, inds, ranks
 
 
 def rule_r1_single(ctx: Ctx) -> int:
@@ -144,13 +161,36 @@ def rule_r1_single(ctx: Ctx) -> int:
         if ev is None:
             continue
         bad, undecided, scenarios = [], [], 0
+        # the tracker's state is whatever its own code sets up: a fresh tracker from the interpreted constructor, and - for the
+        # scenarios with an incumbent - the state a first evaluate([old]) leaves behind (so that anything cached next to the best,
+        # such as its key, is there too)
+        fresh = warm = None
+        NEG = float("-inf")
+        try:
+            r0, _, _ = _tracker_model(ctx, c, attr, None, (), {}, method="__init__")
+            if len(r0) == 1 and not r0[0][2] and not any(e.kind == "raise" for e in r0[0][0]):
+                fresh = {k: v for k, v in _tracker_model.last_envs[0].items() if k.startswith("self.")}
+                fresh["self.recorders"] = [Sym("rec1")]
+                fresh["self.problem"], fresh["self.evaluator"] = Sym("problem"), Sym("evaluator")
+                r1, _, _ = _tracker_model(ctx, c, attr, None, (5,), {}, state=fresh, names=["old"])
+                if len(r1) == 1 and not r1[0][2] and not any(e.kind == "raise" for e in r1[0][0]):
+                    warm = {k: v for k, v in _tracker_model.last_envs[0].items() if k.startswith("self.")}
+                    if warm.get(f"self.{attr}") != Sym("old"):
+                        bad.append({"initial_best_rank": None, "batch_ranks": (5,), "stored_best": str(warm.get(f"self.{attr}")), "expected_best": "old",
+                                    "reported": [], "expected_flags": [("old", True)]})
+                        warm = None
+        except Budget:
+            fresh = warm = None
+        two = [(a, b) for a in RANKS for b in RANKS]
+        extreme = [(NEG,), (NEG, 3), (NEG, NEG), (3, NEG)]           # the worst possible aggregate is still a first individual
         for initial_rank in (None, 5):
-            for batch in ([(a, b) for a in RANKS for b in RANKS] if ctx.tier != "thorough" else
-                          [(a, b) for a in RANKS for b in RANKS] + [(a, b, c_) for a in RANKS for b in RANKS for c_ in RANKS]):
+            for batch in (two + (extreme if initial_rank is None else [(NEG, 7)]) if ctx.tier != "thorough" else
+                          two + extreme + [(a, b, c_) for a in RANKS for b in RANKS for c_ in RANKS]):
                 scenarios += 1
                 init = None if initial_rank is None else Sym("old")
+                state = fresh if initial_rank is None else warm
                 try:
-                    results, inds, ranks = _tracker_model(ctx, c, attr, init, batch, {"old": 5})
+                    results, inds, ranks = _tracker_model(ctx, c, attr, init, batch, {"old": 5}, state=state)
                 except Budget:
                     undecided.append("too many unknown branches")
                     continue
